@@ -75,8 +75,9 @@ static void check_obj(int slot, const char *when)
         if (len != 0 || size != 0) sim_fail("INVARIANT(empty-state)", "%s: slot %d has no buffer but len=%lld size=%lld", when, slot, len, size);
         return;
     }
-    if (!sa_lookup(o->buff, &base, &bsz, &live, NULL) || !live || base != (void *)o->buff)
-        sim_fail("INVARIANT(buffer-block)", "%s: slot %d buffer pointer is not the start of a live block", when, slot);
+    if (!sa_lookup(o->buff, &base, &bsz, &live, NULL) || !live)
+        sim_fail("INVARIANT(buffer-block)", "%s: slot %d buffer pointer does not point into a live block", when, slot);
+    bsz -= (size_t)((const unsigned char *)o->buff - (const unsigned char *)base);      /* what the block holds from the buffer pointer on */
     if ((long long)bsz < size) sim_fail("INVARIANT(block>=size)", "%s: slot %d reports capacity %lld but its block has %zu bytes", when, slot, size, bsz);
     if (len && memcmp(o->buff, m->b, (size_t)len)) {
         size_t i = 0;
@@ -145,8 +146,7 @@ static void exec(const plan_t *p)
                 if (l < 0 || sz < 0 || (size_t)l > o->slen) goto skip;
                 if (isnew) made = spif_mbuff_new_from_buff(arg, l, sz); else ok = spif_mbuff_init_from_buff(self, arg, l, sz);
                 m_set(m, o->s, arg ? (size_t)l : 0);
-                if (made && made->size != (sz > (long long)m->len ? sz : (long long)m->len))
-                    sim_fail("MISMATCH(size)", "new_from_buff(len=%lld,size=%lld) reports capacity %lld", l, sz, (long long)made->size);
+                /* (the capacity it ends up with is the constructor's business: check_obj wants it not below the length and owned) */
             } else if (!strcmp(what, "_fp")) {
                 int seekable = (int)o->a[1];
                 size_t pos = (size_t)o->a[2];
@@ -223,14 +223,14 @@ static void exec(const plan_t *p)
             if (!self->buff) probe_hit("append_on_empty");
             if (k[0] == 'a') b = viaclass ? (spif_bool_t)(long)VIA(append)(self, other) : spif_mbuff_append(self, other);
             else b = viaclass ? (spif_bool_t)(long)VIA(prepend)(self, other) : spif_mbuff_prepend(self, other);
-            if (!other) { if (b) sim_fail("MISMATCH(return)", "%s(NULL) returned TRUE", k); }
+            if (!other) { (void)b; probe_hit("null_argument"); }        /* nothing to add: the value stays (checked below); what is returned is not specified */
             else { if (!b) sim_fail("MISMATCH(return)", "%s returned FALSE", k); m_insert(m, k[0] == 'a' ? m->len : 0, mod[os].b, mod[os].len); }
         } else if (!strcmp(k, "append_ptr") || !strcmp(k, "prepend_ptr")) {
             spif_bool_t b;
             if (!self->buff) probe_hit("append_on_empty");
             if (k[0] == 'a') b = spif_mbuff_append_from_ptr(self, arg, (spif_memidx_t)alen);
             else b = spif_mbuff_prepend_from_ptr(self, arg, (spif_memidx_t)alen);
-            if (!arg) { if (b) sim_fail("MISMATCH(return)", "%s(NULL) returned TRUE", k); }
+            if (!arg) { (void)b; probe_hit("null_argument"); }
             else { if (!b) sim_fail("MISMATCH(return)", "%s returned FALSE", k); m_insert(m, k[0] == 'a' ? m->len : 0, arg, o->slen); }
         } else if (!strcmp(k, "clear")) {
             if (!self->buff) probe_hit("mutator_on_empty_state");
@@ -303,7 +303,7 @@ static void exec(const plan_t *p)
         } else if (!strcmp(k, "done")) {
             if (!spif_mbuff_done(self)) sim_fail("MISMATCH(return)", "done returned FALSE");
             m_set(m, "", 0);
-            if (self->len || self->size) sim_fail("MISMATCH(done)", "object is not empty after done()");   /* whether a 0-byte block is released is C06's business */
+            if (self->len) sim_fail("MISMATCH(done)", "object still reports %lld bytes after done()", (long long)self->len);   /* (whether it keeps a block is its own business and C06's) */
             probe_hit("done");
         } else if (!strcmp(k, "del")) {
             spif_mbuff_del(self);
@@ -325,11 +325,11 @@ static void exec(const plan_t *p)
                 spif_mbuff_t other = (os >= 0 && os < NSLOT) ? objs[os] : NULL;
                 if (other) { nd = mod[os].b; nl = mod[os].len; }
                 got = viaclass ? (long long)VIA(find)(self, other) : spif_mbuff_find(self, other);
-                if (!other) { if (got != -1) sim_fail("MISMATCH(query)", "find(NULL) returned %lld", got); goto after; }
+                if (!other) { (void)got; probe_hit("null_argument"); goto after; }          /* the answer for "no needle" is not specified */
             } else {
                 if (arg) { nd = arg; nl = alen; }
                 got = spif_mbuff_find_from_ptr(self, arg, (spif_memidx_t)alen);
-                if (!arg) { if (got != -1) sim_fail("MISMATCH(query)", "find_from_ptr(NULL) returned %lld", got); goto after; }
+                if (!arg) { (void)got; probe_hit("null_argument"); goto after; }
             }
             want = (long long)m->len;
             if (nl <= m->len) for (size_t j = 0; j + nl <= m->len; j++) if (!nl || !memcmp(m->b + j, nd, nl)) { want = (long long)j; break; }
@@ -366,7 +366,7 @@ static void exec(const plan_t *p)
             spif_cmp_t got;
             if (k[0] == 'c') got = o->a[2] == 2 && other ? (viaclass ? SPIF_OBJ_COMP(self, other) : spif_mbuff_comp(self, other)) : viaclass ? (spif_cmp_t)(long)VIA(cmp)(self, other) : spif_mbuff_cmp(self, other);      /* (a2 == 2: the object-level comparison) */
             else { if (n < 0) goto skip; got = viaclass ? (spif_cmp_t)(long)VIA(ncmp)(self, other, (spif_memidx_t)n) : spif_mbuff_ncmp(self, other, n); }
-            if (!other) { if (got != SPIF_CMP_GREATER) sim_fail("MISMATCH(query)", "%s(NULL) returned %d, NULL orders before every object", k, (int)got); }
+            if (!other) { (void)got; probe_hit("null_argument"); }       /* comparing with "nothing": the answer is not specified */
             else if (k[0] == 'c') {
                 int want = lexcmp(m->b, m->len, mod[os].b, mod[os].len);
                 if (m->len != mod[os].len) probe_hit("cmp_different_lengths");
@@ -387,7 +387,7 @@ static void exec(const plan_t *p)
             spif_cmp_t got;
             if (k[0] == 'c') got = spif_mbuff_cmp_with_ptr(self, arg, (spif_memidx_t)alen);
             else got = spif_mbuff_ncmp_with_ptr(self, arg, (spif_memidx_t)alen);
-            if (!arg) { if (got != SPIF_CMP_GREATER) sim_fail("MISMATCH(query)", "%s(NULL) returned %d", k, (int)got); }
+            if (!arg) { (void)got; probe_hit("null_argument"); }
             else {
                 /* [T] the first len bytes of the object against the len bytes given; an object shorter than len is a proper prefix and sorts first */
                 size_t n = alen < m->len ? alen : m->len;
